@@ -54,7 +54,7 @@ Lemma generate_packet_bytes_pec ovf addr dest mt hdr data buf out n :
 Proof.
   unfold generate_packet_bytes, wbind, wlift, wret.
   destruct (body_header_new false mt) as [bh|k]; [|discriminate].
-  destruct (finalise ovf _ _) as [smb'|k]; [|discriminate].
+  destruct (MAX_PACKET_LEN <? packet_len hdr data)%nat; [discriminate|].
   destruct (packet_to_raw _ _ _ _ _ buf) as [b [m|k]] eqn:Hp; [|discriminate].
   intros E. inversion E; subst. eapply packet_to_raw_pec. exact Hp.
 Qed.
@@ -72,7 +72,7 @@ Proof. intros buf out n. unfold wlift. discriminate. Qed.
 Lemma pw_if (b : bool) w1 w2 : pec_writer w1 -> pec_writer w2 -> pec_writer (if b then w1 else w2).
 Proof. destruct b; auto. Qed.
 
-Ltac pw := repeat first [ apply pw_if | apply pw_none | apply pw_panic | apply pw_gen ].
+Ltac pw := repeat first [ apply pw_gen | apply pw_none | apply pw_panic | apply pw_if ].
 
 Lemma encode_call_pec ovf c h id a ls w : encode_call ovf c h id a ls = Some w -> pec_writer w.
 Proof.
